@@ -144,8 +144,8 @@ Next ==
      \/ \E h \in MainHashes, g \in MainHashes, s \in Others :
            h # g /\ s = MaxOther
            /\ MayDeliver(WrongBlock(h, g, s)) /\ OnVerify(WrongBlock(h, g, s))
-     \/ \E h \in MainHashes, v \in 1..MaxForged :
-           MayDeliver(Forged(h, MinOther, v)) /\ OnVerify(Forged(h, MinOther, v))
+     \/ \E h \in MainHashes, v \in 1..MaxForged, s \in {MinOther, Self} :      \* also under this node's own id
+           MayDeliver(Forged(h, s, v)) /\ OnVerify(Forged(h, s, v))
      \/ (Cardinality({i \in 1..Len(hist) : hist[i] = Expire}) < MaxTimeouts /\ OnTimeout)
 
 Spec == Init /\ [][Next]_vars
